@@ -1,4 +1,5 @@
 import Rangers.Proofs.PoolPack
+import Rangers.Proofs.PoolCrash
 /-!
 # C17, part D — expiry, evictions, where `MarkExecuted` writes, crash between two writes, `Clear()`
 
@@ -75,6 +76,16 @@ theorem mark_crash_sound (s s' : Pool) (rs : List (Nat × Nat)) (txs : List Tx) 
       (∀ x, x ∈ s'.execHashes → x ∈ s.execHashes ∨ x ∈ rs.map (·.1)) :=
   markExecutedZ_crash hi.batch hi.attached hc hz h
 
+/-- **The records present after such a death are exactly the old ones plus those of a prefix of the block's
+receipts, in receipt order** (the receipts covered by the physical writes that went through): never a record
+from the middle or the end of the block without all earlier ones. Together with `restart_inv` and
+`mark_any_sizes`: re-delivering the block after the restart completes exactly the missing suffix. -/
+theorem mark_crash_prefix (s s' : Pool) (rs : List (Nat × Nat)) (txs : List Tx) (evicted : List Nat) (k : Nat) (ws : List Nat)
+    (hi : Inv s) (hc : Covered (rs.map (·.1)) txs)
+    (h : s.markExecutedZ rs txs evicted (some k) = (s', ws, .crash)) :
+    ∃ n, n ≤ rs.length ∧ ∀ x, x ∈ s'.execHashes ↔ x ∈ s.execHashes ∨ x ∈ (rs.take n).map (·.1) :=
+  markExecutedZ_crash_prefix hi.batch hi.attached hc h
+
 /-- After the restart the invariant holds again, whatever state the death left: nothing is pending, the
 unwritten batch is gone, the records stay. Re-delivering the block then completes its records (`mark_any_sizes`). -/
 theorem restart_inv (s : Pool) : Inv s.restart ∧ s.restart.executed = s.executed ∧ s.restart.pending = [] :=
@@ -82,6 +93,28 @@ theorem restart_inv (s : Pool) : Inv s.restart ∧ s.restart.executed = s.execut
 
 example : ((Pool.empty 9).markExecutedZ [(11, 60000), (12, 60000), (13, 5)] [⟨1, 11, [], 0, 0, 0⟩, ⟨2, 12, [], 0, 0, 0⟩, ⟨3, 13, [], 0, 0, 0⟩] [] (some 2)).2
     = ([2], .crash) := by decide
+
+/-! ## A batch write that returns an error (write fault, not a crash) -/
+
+/-- What one would want: whatever the store answers, a `MarkExecuted` call that returns leaves every receipt of the
+block recorded (or reports the failure). -/
+def FullStatementWriteError : Prop :=
+  ∀ (s : Pool) (rs : List (Nat × Nat)) (txs : List Tx), Inv s → Covered (rs.map (·.1)) txs → (∀ p ∈ rs, 0 < p.2) →
+    ∀ h ∈ rs.map (·.1), (s.markExecutedWriteError rs txs []).isExecuted h = true
+
+/-- False of the model, which transcribes the source here (`MarkExecuted` has no error result and drops what
+`batch.Write` returns, then resets the batch — pinned by `Props/C17B.dropped_errors_as_modelled`): after a failed
+write the block's transactions are neither pending nor recorded, and a re-submission is accepted. Outside the
+property's quantifier (store faults are not among its operations); kept as a statement so that a change of the error
+handling is noticed. -/
+theorem write_error_loses_records : ¬ FullStatementWriteError := by
+  intro h
+  have := h (Pool.empty 5) [(11, 1)] [⟨1, 11, [], 0, 0, 0⟩] (inv_empty 5)
+    (by intro x hx; simp at hx; subst hx; exact ⟨⟨1, 11, [], 0, 0, 0⟩, by simp, rfl⟩) (by intro p hp; simp at hp; subst hp; simp) 11 (by simp)
+  revert this
+  decide
+
+example : (((Pool.empty 5).markExecutedWriteError [(11, 1)] [⟨1, 11, [], 0, 0, 0⟩] []).addTransaction ⟨1, 11, [], 0, 0, 0⟩).2 = .ok := by decide
 
 /-! ## Evictions (`header.EvictedTxs`, the `evictedTxs` LRU) -/
 
